@@ -560,12 +560,19 @@ func (r *rec) observe(parent *chain.BlockSummary, blk *block.Block, receipts tx.
 	if signer, err := h.Signer(); err == nil && pos {
 		split, _ = builtin.Staker.Native(postSt).HasDelegations(signer)
 	}
+	// the energy contract's own bookkeeping, evaluated at this block's time on the post-state
+	en := builtin.Energy.Native(postSt, t)
+	supply, err := en.TotalSupply()
+	must(err)
+	burned, err := en.TotalBurned()
+	must(err)
 	ev := trace.Ev{"e": "Block", "prof": r.g.prof, "id": r.name(h.ID()), "parent": r.name(h.ParentID()), "num": h.Number(), "t": t,
 		"preVET": limbs(pre.vet), "postVET": limbs(post.vet), "preVTHO": limbs(pre.vtho), "postVTHO": limbs(post.vtho),
 		"burnVET": limbs(burnVET), "burnVTHO": limbs(burnVTHO), "rcpts": rcpts, "pos": pos,
 		"issued": limbs(new(big.Int).Sub(issued(postSt), issued(preSt))), "staked": staked, "curve": limbs(curve),
 		"hdr": hdrFields(h), "par": hdrFields(parent.Header), "leaves": post.leaves, "refused": refused, "sibling": sibling,
-		"nrev": reverted, "stopped": stopTime(postSt) != math.MaxUint64, "split": split}
+		"nrev": reverted, "stopped": stopTime(postSt) != math.MaxUint64, "split": split,
+		"supply": limbs(supply), "burnedNeg": burned.Sign() < 0, "burned": limbs(new(big.Int).Abs(burned))}
 	if rcpts == nil {
 		ev["rcpts"] = []any{}
 	}
